@@ -19,7 +19,7 @@ package main
 //     number).  Result: register class, architectural register number, operand
 //     width, and the legacy high-byte flag (AH/CH/DH/BH address byte 1 of
 //     registers 0..3).  Encodings the assembler rejects for a name (MOVOU X16)
-//     are dropped as long as another one exists.
+//     are dropped as long as another one exists for that register.
 //
 // (b) EXECUTION.  The very same instructions (once with an all-zeros source,
 //     once with an all-ones source) are built into a throw-away Go program
@@ -37,8 +37,10 @@ package main
 //     stack pointer cannot be executed safely: those rows carry the encoding
 //     only.  Without AVX-512 (F+BW+VL) on the host only GP rows are executed.
 //
-// Output: plain Lean data (`Avo.Oracle.regHW : List HWRow`) on stdout, and a
-// summary for the evidence file in <cwd>/reghw/summary.json.
+// Output: plain Lean data on stdout — `Avo.Oracle.regHW : List (List HWRow)`, one
+// group of measurements per row of reg.Families order (the order of Gen.regs;
+// the empty group for pseudo registers) — and a summary for the evidence file in
+// <cwd>/reghw/summary.json.
 
 import (
 	"bytes"
@@ -756,10 +758,10 @@ func hwExecute(dir string, rows []*hwRow, summary map[string]any) error {
 	}
 	side := map[string][]string{}
 	for i, r := range probes {
-		c00 := results[[2]int{2 * i, 0}]      // src zeros, init zeros
-		c10 := results[[2]int{2 * i, 255}]    // src zeros, init ones
-		c01 := results[[2]int{2*i + 1, 0}]    // src ones, init zeros
-		c11 := results[[2]int{2*i + 1, 255}]  // src ones, init ones
+		c00 := results[[2]int{2 * i, 0}]     // src zeros, init zeros
+		c10 := results[[2]int{2 * i, 255}]   // src zeros, init ones
+		c01 := results[[2]int{2*i + 1, 0}]   // src ones, init zeros
+		c11 := results[[2]int{2*i + 1, 255}] // src ones, init ones
 		if len(c00) != 0 {
 			return fmt.Errorf("%s %s: writing zeros over zeros changed %v", r.Op, r.Name, c00)
 		}
